@@ -140,7 +140,18 @@ def main():
                     if got is not None and (s + e) % 2 == 0:
                         stats["arr_calls"] = stats.get("arr_calls", 0) + 1
                         try:
-                            buf = np.full(n, 99.0)
+                            # the supplied array is, by rotation, a plain array, a reversed view, every
+                            # second element of a longer array, and a reversed strided view
+                            kind = (s + 2 * e) % 4
+                            if kind == 0:
+                                buf = np.full(n, 99.0)
+                            elif kind == 1:
+                                buf = np.full(n, 99.0)[::-1]
+                            elif kind == 2:
+                                buf = np.full(2 * n, 99.0)[::2]
+                            else:
+                                buf = np.full(2 * n + 1, 99.0)[::-2][:n]
+                            stats["arr_view_kind_%d" % kind] = stats.get("arr_view_kind_%d" % kind, 0) + 1
                             b.values("c", s, e, missing=missing, oob=oob, arr=buf)
                             got2 = [float(x) for x in buf]
                             if any(not same(x, y) for x, y in zip(got, got2)):
@@ -181,7 +192,7 @@ def main():
                                 if (bins + s + e) % 3 == 0:
                                     stats["arr_calls"] = stats.get("arr_calls", 0) + 1
                                     try:
-                                        buf = np.full(bins, 99.0)
+                                        buf = np.full(bins, 99.0)[::-1] if (bins + e) % 2 == 0 else np.full(bins, 99.0)
                                         r2 = b.values("c", s, e, bins=bins, summary=summary, exact=exact,
                                                       missing=missing, oob=oob, arr=buf)
                                         got2 = [float(x) for x in buf]
